@@ -103,7 +103,7 @@ class ProgramAnalysis(object):
         self.query_timeout_ms = query_timeout_ms
         self.seed = seed
         self.max_divergences = 3
-        self.result = dict(program=self.name, mode=mode, steps=steps, status='ok', divergences=[], panics=[],
+        self.result = dict(program=self.name, path=path, mode=mode, steps=steps, status='ok', divergences=[], panics=[],
                            unsupported=[], inconclusive=[], paths=0, checks=0, checks_trivial=0, layout=[], notes=[])
 
     # ------------------------------------------------------------------------------------------
@@ -424,6 +424,11 @@ def selftest(path, mir_paths, steps, seed, scheduler=False):
     for k in range(steps):
         rows.append([rng.choice(SPECIAL_WORDS) if rng.random() < 0.5 else f2b(rng.uniform(-4, 4)) for _ in range(n_in)])
     real = common.replay(dict(src_path=path, backend='both', scheduler=scheduler, steps=steps, inputs=rows, timeout_s=20))
+    rvm, rwa = real.get('vm', {}), real.get('wasm', {})
+    if rvm.get('compile_ok') != rwa.get('compile_ok'):
+        # e.g. the emitted WASM module does not validate / instantiate while the VM runs the program
+        return dict(program=an.name, path=path, status='accept_mismatch', inputs=rows,
+                    detail=dict(vm_ok=rvm.get('compile_ok'), wasm_ok=rwa.get('compile_ok'), vm_errors=(rvm.get('errors') or [])[:2], wasm_errors=(rwa.get('errors') or [])[:2]))
     smt, it = an.new_interp()
     ex = Explorer(smt, 4)
     out = {}
